@@ -112,7 +112,7 @@ Proof.
   destruct o; simpl in *; try discriminate;
     [ apply (rel_new_guards ent_eq ent_eq_trans RF RP) | .. | apply (rel_hold ent_eq ent_eq_refl RG) | apply (rel_poke ent_eq ent_eq_refl RG)
     | apply (rel_peek ent_eq ent_eq_refl) | apply (rel_release ent_eq ent_eq_refl ent_eq_trans RG RH frame_ent)
-    | apply (rel_enabled ent_eq RF) | apply (rel_fevent ent_eq ent_eq_refl) ].
+    | apply (rel_enabled ent_eq RF) | apply (rel_fevent ent_eq ent_eq_refl) | apply (rel_eventq ent_eq ent_eq_refl) ].
   - rewrite do_new_unfold. destruct (hget h (st_handles st)); [apply ent_eq_refl|].
     destruct (eff st t false) as [i|]; [|split; reflexivity].
     assert (R : match resolve st i t k with inl (st1, _, _) => ent_eq st st1 | inr _ => True end).
@@ -471,6 +471,7 @@ Proof.
   - left. apply (rel_release cp_eq Rr Rt RG RH RFr).
   - left. exact (rel_enabled cp_eq RF st t dis).
   - left. exact (rel_fevent cp_eq Rr st t k).
+  - left. exact (rel_eventq cp_eq Rr st t q).
 Qed.
 
 Theorem cpar_stable : forall pend st tr o q v, Inv pend st tr -> cpar_get q (st_cpar st) = Some v ->
